@@ -184,6 +184,20 @@ def gen_container(rng):
         opsegs.append([dict(s, storage_read_gb=float(s['storage_read_gb'] / scale) if scale > 1 else s['storage_read_gb'],
                             baseline_cpu_seconds=float(s['baseline_cpu_seconds'] / scale) if scale > 1 else s['baseline_cpu_seconds'])
                        for s in segs][:2])
+    if rng.random() < 0.25:
+        # segments with the SAME timing profile in one container, one of them in an operator that rounds to zero ticks
+        # (the one-tick minimum of that operator must not leak into the other segments)
+        law = rng.choice(X.LAWS)
+        tiny = rng.choice([0.0, 0.0, 0.3 / tps])
+        z = dict(baseline_cpu_seconds=float(tiny), cpu_scaling=law, storage_read_gb=0.0)
+        nz = dict(baseline_cpu_seconds=float(rng.randint(1, 5)) / tps, cpu_scaling='const', storage_read_gb=0.0,
+                  memory_gb=float(rng.choice([0.5, 1, 2])))
+        shapes = [[[dict(z)], [dict(z, memory_gb=float(rng.choice([0.25, 3, 9]))), nz]],
+                  [[dict(z)], [nz, dict(z)], [dict(z), nz]],
+                  [[dict(z), dict(z), dict(z)], [nz]],
+                  [[nz], [dict(z)], [dict(z, memory_gb=1.0), nz, dict(z)]]]
+        opsegs = rng.choice(shapes)
+        nops = len(opsegs)
     cpu = rng.choice([1, 2, 3, 4, 8])
     est = sum(s['storage_read_gb'] / 20 * tps + s['baseline_cpu_seconds'] * tps for sg in opsegs for s in sg)
     if est > 400:
